@@ -39,6 +39,15 @@ CHECKS = {
                 note=E1_NOTE),
 }
 
+CHECKS['C15'] = dict(check='c15', engine='E5-environment-sim', category='exploration', design='§3 C15',
+                     technique='deterministic simulation of environment nondeterminism (fresh interpreters per hash seed, seeded listing order, shuffled mapping key order), canonical-dump equality + layering model',
+                     text='generated FlowIR and DSL 2.0 packages loaded through experimentFromPackage, graphFromPackage and '
+                          'configurationForExperiment in several simulated environments; byte-identical canonical dumps (names, '
+                          'edges, resolved configurations, environments, memoization hashes) and last-variable-file-wins checked '
+                          'on every use of a user variable.',
+                     note='trusted base: the canonical dump (checks/c15_loader.py) covers what the statement lists; per-run system '
+                          'values (instance path, FLOW_RUN_ID) are normalised; sampled packages and environments, not exhaustive')
+
 NOT_APPLICABLE = {
     'C03': 'pure rewrite of a component list (FlowIR.apply_replicate): no schedule, clock, fault or history to simulate',
     'C04': 'pure fold of configuration layers plus substitution; no state between calls (state across calls is C08)',
@@ -52,7 +61,7 @@ NOT_APPLICABLE = {
     'C19': 'dump/load round trip on documents; pure',
     'C20': 'arithmetic on a list of stage weights at load time',
 }
-PENDING = {k: 'claimed in DESIGN.md; its check is still under construction in this round' for k in ('C05', 'C07', 'C08', 'C14', 'C15')}
+PENDING = {k: 'claimed in DESIGN.md; its check is still under construction in this round' for k in ('C05', 'C07', 'C08', 'C14')}
 
 
 def main():
